@@ -129,6 +129,25 @@ type memoryDatabase struct {
 	lock     sync.RWMutex // lock of create metric store
 }
 
+// lastCreatedTime is the created time of the latest memory database.
+var lastCreatedTime atomic.Int64
+
+// nextCreatedTime returns an unique created time(ns) for a new memory database,
+// the created time is the key of the slot ranges which the shard level memory index database keeps for each memory database,
+// the fast clock only ticks every few milliseconds, so two memory databases created in the same tick must not get the same value.
+func nextCreatedTime() int64 {
+	for {
+		now := fasttime.UnixNano()
+		last := lastCreatedTime.Load()
+		if now <= last {
+			now = last + 1
+		}
+		if lastCreatedTime.CompareAndSwap(last, now) {
+			return now
+		}
+	}
+}
+
 // NewMemoryDatabase returns a new MemoryDatabase.
 func NewMemoryDatabase(cfg *MemoryDatabaseCfg) (MemoryDatabase, error) {
 	db := &memoryDatabase{
@@ -137,7 +156,7 @@ func NewMemoryDatabase(cfg *MemoryDatabaseCfg) (MemoryDatabase, error) {
 		familyTime:    cfg.FamilyTime,
 		name:          cfg.Name,
 		timeSeriesIDs: roaring.New(),
-		createdTime:   fasttime.UnixNano(),
+		createdTime:   nextCreatedTime(),
 		statistics:    metrics.NewMemDBStatistics(cfg.Name),
 	}
 	return db, nil
